@@ -1131,6 +1131,7 @@ pub fn family(fam: &str, n: usize) -> Vec<u8> {
         }
         // a long run of other groups, then as many operation-attributes delimiters (work per delimiter that looks for an earlier group)
         "groups-late-op" => {
+            v.truncate(HDR.len()); // no leading operation group: the first one comes behind the run of other groups
             for _ in 0..(n / 2) {
                 v.push(0x02);
             }
